@@ -48,6 +48,9 @@ pub fn install(mut step: Box<dyn FnMut(Point)>) {
             if with_world(|w| w.external_calls) {
                 return;
             }
+            if with_world(|w| w.queues.get(&queue).map(|q| q.in_new).unwrap_or(false)) {
+                with_world(|w| w.end_new(queue));
+            }
             let bufs: Vec<serde_json::Value> = inputs
                 .iter()
                 .map(|b| json!({"va":hex(b.as_ptr() as u64),"len":b.len(),"dir":"ToDevice"}))
